@@ -83,6 +83,10 @@ def representatives(kind, rnd):
     for i in ('[1,2]', '{"a":1}', 'true', 'null', '[[]]', '1e400'):
         add("stray-response", False, body='{"jsonrpc":"2.0","id":%s,"result":{"roots":[]}}' % i)
         add("stray-error", False, body='{"jsonrpc":"2.0","id":%s,"error":{"code":-32000,"message":"x"}}' % i)
+    # tools/call whose _meta (and its progressToken) has every JSON type
+    for mv in ('{"progressToken":true}', '{"progressToken":null}', '{"progressToken":{"a":1}}', '{"progressToken":[1]}', '{"progressToken":1.5}',
+               '"text"', '[1]', '7', 'null', '{"progressToken":"' + "t" * 70000 + '"}'):
+        add("meta-type", True, body='{"jsonrpc":"2.0","id":64,"method":"tools/call","params":{"name":"echo","arguments":{"nonce":"m"},"_meta":%s}}' % mv)
     # list requests with a cursor: well-formed ones that point beyond the end, and malformed ones
     import base64 as _b64
     for m in ("tools/list", "prompts/list", "resources/list", "resources/templates/list"):
